@@ -632,6 +632,11 @@ func (c *Component) handlePADR(pkt *dataplane.ParsedPacket) error {
 	}
 
 	sessionID := c.allocateSessionID()
+	if sessionID == 0 {
+		// RFC 2516 section 5.4: 0x0000 is reserved for discovery; never create a
+		// session with it. The client retries PADI/PADR once ids are free again.
+		return fmt.Errorf("PADR from %s dropped: no free PPPoE session id", pkt.MAC.String())
+	}
 
 	sessID := uuid.New().String()
 	sess := &SessionState{
@@ -1053,6 +1058,12 @@ func (c *Component) handleAAAResponse(event events.Event) {
 func (c *Component) allocateSessionID() uint16 {
 	c.sidMu.Lock()
 	defer c.sidMu.Unlock()
+
+	// nextSessionID is 0 after restoring a session with id 0xFFFF (the restore
+	// paths compute id+1 in uint16). 0 is never a valid session id.
+	if c.nextSessionID == 0 {
+		c.nextSessionID = 1
+	}
 
 	startID := c.nextSessionID
 	for {
